@@ -167,59 +167,79 @@ NA_REASON = {p: 'contract pack not built yet in this session (see DESIGN.md sect
 
 # as-built additions (DESIGN.md section 9): appended to the claim text of each property
 ADDED = {
-    'C09': 'Round 4: System.store_adder_setter (anti-windup limiters and only they reach System.antiwindups); bounded check of the stored series of whole runs (anti-windup states inside their limits at every stored instant).',
-    'C04': "Round 4: Model.set (dae.Tf / Teye written in place) and System._store_tf imported; bounded run resumed after a time-constant change checked against the model's own time constants.",
+    'C18': 'Rounds 5-6: DummyValue.__init__ (expression stored in one pair of parentheses), GainLimiter limit regimes, System.init ordering and dae.Tf for service time constants.',
+    'C09': 'Round 4: System.store_adder_setter (anti-windup limiters and only they reach System.antiwindups); bounded check of the stored series of whole runs (anti-windup states inside their limits at every stored instant).'
+           ' Rounds 5-6: native replay of store_adder_setter with same-named limiters in two models; GainLimiter limit regimes; moving-limit anti-windup.',
+    'C04': "Round 4: Model.set (dae.Tf / Teye written in place) and System._store_tf imported; bounded run resumed after a time-constant change checked against the model's own time constants."
+           ' Rounds 5-6: time-bookkeeping clause of TDS.run (t - h is the time of the last accepted state), refresh-request clause of ImplicitIter.step, System.init ordering; bounded rejected-step run, moving-limit anti-windup, integrator matrix.',
     'C01': 'Also under contract: PFlow.nr_step / nr_solve / run (success => tested mismatch < tol), System._e_to_dae / fg_to_dae '
            '(accumulate adders, overwrite setters, pegged write-back), System.calc_pu_coeff / NumParam.set_pu_coeff (textbook '
            'ratios) and the declared per-unit bases of the Line data (declaration contract on LineData.__init__).'
-           ' Round 4: System.store_adder_setter (each variable filed under the list of its role and its own code, cache refreshed first), head of Model.init (constant services re-evaluated on every call; solver counterexample replayed as run / alter / run).',
+           ' Round 4: System.store_adder_setter (each variable filed under the list of its role and its own code, cache refreshed first), head of Model.init (constant services re-evaluated on every call; solver counterexample replayed as run / alter / run).'
+           ' Rounds 5-6: bounded reset-and-solve-again and power-flow variants (NR / dishonest / NK).',
     'C02': 'Function part: Model.f_update / g_update positional binding, refresh_inputs_arg (lookup by name), '
            'System._find_stale_models / undill (md5 gate), tail of SymProcessor.generate_pycode (overwrite decision; mechanical '
            'slice) plus a bounded native check that a tampered file with the right md5 line is replaced.'
-           ' Round 4: Model.get_md5 (every declared v_str / v_iter / e_str / diag_eps, service v_str / sequential and exported flag is fed to the checksum) plus an exhaustive native sensitivity check over all shipped models.',
+           ' Round 4: Model.get_md5 (every declared v_str / v_iter / e_str / diag_eps, service v_str / sequential and exported flag is fed to the checksum) plus an exhaustive native sensitivity check over all shipped models.'
+           ' Rounds 5-6: Model.refresh_inputs (live arrays under their own names, configuration asked for with refresh=True); bounded exhaustive binding of the loaded code, argument-list identity, staleness replay.',
     'C03': 'Function part: Model.j_update, _jac_eq_var_name, Model / System.store_sparse_pattern (lockstep triplets, reserved gy '
            'diagonal), System.j_update (order: model values, pattern reset, each triplet once, island patch), System.j_islands '
            '(semantic: diag = eps, cross = 0 per islanded bus), DAE.restore_sparse / build_pattern / store_sparse_ijv; native replays.'
-           ' Round 4: rebuild-mode branch of System.j_islands (gy + spmatrix model), native pattern replay (every declared position in the stored template, live pattern = template after an update).',
+           ' Round 4: rebuild-mode branch of System.j_islands (gy + spmatrix model), native pattern replay (every declared position in the stored template, live pattern = template after an update).'
+           ' Rounds 5-6: bounded integrator-matrix check (calc_jac against calc_q), argument-list identity (live time for the Jacobian functions), parameters of constant blocks altered between evaluations.',
     'C05': 'Also: TDS.init keeps exactly the event schedule built by store_switch_times; GENBase.v_numeric switches off exactly the '
            'static generators of in-service machines; native replays for test_init and v_numeric.'
-           ' Round 4: Model.solve_iter (every device position solved exactly once) with native replay on iteratively initialised exciters with an offline device.',
+           ' Round 4: Model.solve_iter (every device position solved exactly once) with native replay on iteratively initialised exciters with an offline device.'
+           ' Rounds 5-6: bounded stock case with a voltage compensator, mode sweep over the mode selectors (set in the input data).',
     'C06': 'Also: System.store_switch_times from its merge loop on (every (time, model) pair scheduled, models sharing a time merged, '
            'switch_times strictly increasing for an initially empty schedule; non-empty schedule = known finding F28), TDS.init '
            'schedule frame, TimerParam.is_time (exact equality), Model / System.switch_action (each callback once), Toggle._u_switch, '
            'Fault.apply_fault / clear_fault (exactly the due and enabled devices).'
-           ' Round 4: head of System.store_switch_times (mechanical slice: every candidate is exactly t, t-eps or t+eps of the paired model, ascending, not before now), native replay of coincident alterations.',
+           ' Round 4: head of System.store_switch_times (mechanical slice: every candidate is exactly t, t-eps or t+eps of the paired model, ascending, not before now), native replay of coincident alterations.'
+           ' Rounds 5-6: Line status obligations (no constant read by a residual bakes in u; defect F36 fixed), effect checks for coincident events, late events, native replays for is_time / switch_action / _u_switch.',
     'C07': 'Imported premises are re-verified under this id: the C04 integration contracts, calc_h / do_switch, per-unit conversion, '
            'and declaration contracts for GENBaseData (M, D on the power base) and LineData.'
-           ' Round 4: head of store_switch_times, EIG._reduce and EIG.calc_As imported; bounded small-signal benchmark (displacement along eigenvectors against expm(As t)).',
+           ' Round 4: head of store_switch_times, EIG._reduce and EIG.calc_As imported; bounded small-signal benchmark (displacement along eigenvectors against expm(As t)).'
+           ' Rounds 5-6: Line status obligations (F36), event runs shared with C06, calc_h replay with late event times.',
     'C08': 'Complex magnitudes modelled for _store_stats; native replay harness.'
-           ' Round 4: System._store_tf (np.put with index arrays), EIG.calc_As (reduction of exactly dae.fx, fy, gx, gy, Tf after find_zero_states), round loop of EIG.sweep (swept parameter written through Model.set; defect F34 fixed) with a native sweep replay.',
+           ' Round 4: System._store_tf (np.put with index arrays), EIG.calc_As (reduction of exactly dae.fx, fy, gx, gy, Tf after find_zero_states), round loop of EIG.sweep (swept parameter written through Model.set; defect F34 fixed) with a native sweep replay.'
+           ' Rounds 5-6: damping sweep in the sweep replay.',
     'C10': 'Also: group branch of ExtVar.link_external (idx handed to the group lookup is the indexer, entry by entry; np.array over '
            'an index list is an uninterpreted coercion) with a native replay over mixed int/str indices.'
-           " Round 4: group branch of ExtParam.link_external (v, vin, pu_coeff = the group's position-preserving lookup) with a native replay on an interleaved two-model group.",
+           " Round 4: group branch of ExtParam.link_external (v, vin, pu_coeff = the group's position-preserving lookup) with a native replay on an interleaved two-model group."
+           ' Rounds 5-6: DeviceFinder.find_or_add imported (explicit entries kept), _set_hi_name, bounded device-order permutation, falsy indices in the group lookup.',
     'C11': 'Also: as_dict with an output converter, GroupBase.alter native replay (interleaved models), declaration contracts.'
-           ' Round 4: NumParam.restore with pu_coeff declared (an early return for unit coefficients is refuted) and a native replay.',
+           ' Round 4: NumParam.restore with pu_coeff declared (an early return for unit coefficients is refuted) and a native replay.'
+           ' Rounds 5-6: ModelData.as_df (fresh walk at every call) with a reset / alter / export replay.',
     'C12': 'Also: TDS.do_switch re-checks connectivity once after every dispatched event (native replay with two generator trips).'
-           ' Round 4: the matrix side of islanding (System.j_islands in both accumulation modes, System.j_update) imported from C03; native bus-off replay with zero-based indices.',
+           ' Round 4: the matrix side of islanding (System.j_islands in both accumulation modes, System.j_update) imported from C03; native bus-off replay with zero-based indices.'
+           ' Rounds 5-6: ConnMan.init (state rebuilt at every setup) with an alter / reset replay; mixed int / str find_idx oracle; automatically named bus.',
     'C13': 'Also: ModelData.as_dict (input-base values, converter applied to those) as the table handed to the writers.'
-           ' Round 4: xlsx._write_system / json._dump_system (table refreshed before it is read, filed under the model name; defect F35 fixed); dump-and-reload with parameters altered after loading.',
+           ' Round 4: xlsx._write_system / json._dump_system (table refreshed before it is read, filed under the model name; defect F35 fixed); dump-and-reload with parameters altered after loading.'
+           ' Rounds 5-6: bounded PSS/E reader against the xlsx form of the same stock cases; MATPOWER export / re-import replay.',
     'C14': 'Also: init_resume never steps across the next pending event or tf; DAE.reset returns to the constructor state (t = -1; '
            'defect F29 fixed); fix_view_arrays frame + native snapshot round trip; bounded reset-then-power-flow reproducibility.'
-           ' Round 4: save_ss / load_ss (the whole system with its Jacobian matrices is handed to dill; the loaded object is returned with its DAE fields as read), BaseVar._set_arrays_inplace imported, native snapshot replay away from events.',
+           ' Round 4: save_ss / load_ss (the whole system with its Jacobian matrices is handed to dill; the loaded object is returned with its DAE fields as read), BaseVar._set_arrays_inplace imported, native snapshot replay away from events.'
+           ' Rounds 5-6: snapshot replay compares the series bookkeeping and continues through an event pending in the snapshot.',
     'C15': 'Also: write_npz with the cached ts.txyz modelled as stale until unpack(); TDSData.export_csv header/body for the same '
            'index list; native chunked-output and csv replays.'
-           ' Round 4: tail of System.set_output_subidx (xidx / yidx strictly increasing, exactly the collected addresses); bounded accessors get_data / df_* with one and with overlapping Output selections.',
+           ' Round 4: tail of System.set_output_subidx (xidx / yidx strictly increasing, exactly the collected addresses); bounded accessors get_data / df_* with one and with overlapping Output selections.'
+           ' Rounds 5-6: clause of TDS.run (DAE.store only for an accepted step at the time it integrated to); bounded thinning of a run that stops early.',
     'C16': 'Also: KLU and UMFPACK variants of the solve contract (klu.numeric does not reject a stale symbolic factor: defect F30 '
            'fixed), _refresh_symbolic class invariant, native replay over matrix sequences for all three back ends.'
-           ' Round 4: both accumulation modes of the island patch (System.j_islands) and PFlow.nr_step imported.',
+           ' Round 4: both accumulation modes of the island patch (System.j_islands) and PFlow.nr_step imported.'
+           ' Rounds 5-6: one-line library wrappers under contract; refresh-request clause of the Newton loop; bounded honest-Newton variant and two systems advanced in turns.',
     'C17': 'Also: criteria.deltadelta (verdict <=> fewer than two angles or spread below the limit) with a bounded native check of the '
            'Python type of the verdict (TDS.run tests "is False").'
-           ' Round 4: getattr-with-default modelled so that the exit-code aggregation of andes.main.run stays decidable; native replay with unloadable case files.',
+           ' Round 4: getattr-with-default modelled so that the exit-code aggregation of andes.main.run stays decidable; native replay with unloadable case files.'
+           ' Rounds 5-6: System.setup (is_setup <=> external parameters linked); bounded dangling-reference case through the command-line entry point.',
     'C19': 'Also: DeviceFinder.find_or_add with a lookup relation updated by every creation (a helper is created at most once per '
-           'target) + native replay; bounded exhaustive GroupBase.idx2model (unknown idx => KeyError also with allow_none).',
+           'target) + native replay; bounded exhaustive GroupBase.idx2model (unknown idx => KeyError also with allow_none).'
+           ' Rounds 5-6: System.collect_ref link loop; bounded registries built by seeded sequences of additions, targeted generated-name collision.',
     'C20': 'Also: ConfigParser callee contracts (add_section / set / has_section) in _update_config_object (defect F31 fixed); native '
            'replay of Config._set over numeric-looking strings.'
-           ' Round 4: andes.utils.paths.get_config_path (result depends on the files present at call time) with a native replay.',
+           ' Round 4: andes.utils.paths.get_config_path (result depends on the files present at call time) with a native replay.'
+           ' Rounds 5-6: bounded precedence check with every argparse default present.',
 }
 TECH_SUFFIX = ('; native replay of counter-models and of undecided obligations on the real code; bounded stand-ins are labelled and '
                'not counted')
